@@ -1,8 +1,145 @@
-(* C14 property theorems (work in progress). *)
-From Coq Require Import List ZArith NArith Bool.
-From GrolModel Require Import Ast Values SaveLoad.
-From GrolProofs Require Import SaveLoad_proofs.
+(* C14 - saved state loads back to the same state.  Property theorems only (proofs in coq/proofs/SaveLoad_*.v).
+
+   Model: coq/model/SaveLoad.v (inspect, func_text, save_globals, read_back = Lexer + Parser models + eval_lit).
+
+   FULL claim        C14_value_roundtrip_all_data  (every well-formed data value)      REFUTED: C14_refuted_*
+   guarded claim     C14_value_roundtrip           (in_domain: not min-int64, no float that prints like an integer)
+                     stated; PROVED for every value without finite floats (C14_value_roundtrip_partial: integers,
+                     booleans, nil, +-Inf, NaN, strings over all bytes, nested arrays and maps with keys of every
+                     type, no bound on size or depth, through the lexer and parser models); for finite floats
+                     decided per run by the differential check and by C14_roundtrip_examples (computed). *)
+From Coq Require Import List ZArith NArith Bool Sorting.Sorted Sorting.Permutation.
+From GrolModel Require Import Ast Parser Values Cmp Maps SaveLoad.
+From GrolProofs Require Import SaveLoad_proofs SaveLoad_examples SaveLoad_roundtrip.
 Import ListNotations.
-Theorem C14_stub : fmt_nat 0 = [48%N].
-Proof. exact stub_ok. Qed.
-Print Assumptions C14_stub.
+
+(* ------------------------------------------------------------------ statements *)
+(* the full claim: every well-formed data value reads back from its saved line as itself *)
+Definition C14_value_roundtrip_all_data : Prop :=
+  forall k v, good_name k = true -> all_data v = true -> read_back dec_conv (save_line k v) = Some (k, v).
+
+(* the guarded claim: the same on in_domain *)
+Definition C14_value_roundtrip : Prop :=
+  forall k v, good_name k = true -> in_domain v = true -> read_back dec_conv (save_line k v) = Some (k, v).
+
+(* ------------------------------------------------------------------ refutations of the full claim *)
+Theorem C14_refuted_integral_float : ~ C14_value_roundtrip_all_data.
+Proof. exact roundtrip_all_data_refuted_integral_float. Qed.
+
+Theorem C14_refuted_min_int64 : ~ C14_value_roundtrip_all_data.
+Proof. exact roundtrip_all_data_refuted_min_int. Qed.
+
+(* what the witnesses reload as (type changes): 1.0 -> INTEGER 1, -0.0 -> INTEGER 0, min-int64 -> FLOAT -2^63 *)
+Theorem C14_refuted_witnesses :
+  read_back_dec (save_line [120%N] one_float) = RbBinding [120%N] (VInt 1) /\
+  read_back_dec (save_line [120%N] neg_zero) = RbBinding [120%N] (VInt 0) /\
+  read_back_dec (save_line [121%N] min_int) = RbBinding [121%N] (VFloat (FFin true 4503599627370496 11)).
+Proof. exact refutation_witnesses. Qed.
+
+(* ------------------------------------------------------------------ the proved part of the guarded claim *)
+Theorem C14_value_roundtrip_partial : forall k v,
+  good_name k = true -> in_domain v = true -> no_finite_float v = true ->
+  read_back dec_conv (save_line k v) = Some (k, v).
+Proof.
+  intros k v Hk Hd Hf. apply value_roundtrip; [exact Hk|]. unfold rt_dom. rewrite Hd, Hf. reflexivity.
+Qed.
+
+(* ... for ANY number conversion that inverts FormatInt on non-negative int64 (strconv.ParseInt is the trusted one) *)
+Theorem C14_value_roundtrip_partial_any_conv : forall conv,
+  (forall n, (Z.of_N n <= max_int64)%Z -> conv_int conv (fmt_nat n) = Some (Z.of_N n)) ->
+  forall k v, good_name k = true -> in_domain v = true -> no_finite_float v = true ->
+  read_back conv (save_line k v) = Some (k, v).
+Proof.
+  intros conv Hc k v Hk Hd Hf. apply value_roundtrip_conv; [exact Hc|exact Hk|]. unfold rt_dom. rewrite Hd, Hf. reflexivity.
+Qed.
+
+(* equal value AND same type: two values of that domain with the same printed form are the same value *)
+Theorem C14_inspect_injective_partial : forall v w,
+  in_domain v = true -> no_finite_float v = true -> in_domain w = true -> no_finite_float w = true ->
+  inspect v = inspect w -> v = w.
+Proof.
+  intros v w A B C D. apply inspect_injective; unfold rt_dom; [rewrite A, B|rewrite C, D]; reflexivity.
+Qed.
+
+(* finite floats and everything else, on representative values (computed) *)
+Theorem C14_roundtrip_examples :
+  List.length in_dom_examples = 39%nat /\ forallb (reads_back [107%N]) in_dom_examples = true.
+Proof. exact (conj C14_examples_count C14_roundtrip_examples_ok). Qed.
+
+(* ------------------------------------------------------------------ one binding per line *)
+Theorem C14_one_line : forall v, is_data v = true -> no_nl (inspect v).
+Proof. exact inspect_no_newline. Qed.
+
+Theorem C14_saved_line_has_no_newline : forall k v, no_nl k -> in_domain v = true -> no_nl (save_line k v).
+Proof. intros k v Hk Hv. apply save_line_no_newline; [exact Hk|]. apply in_domain_is_data. exact Hv. Qed.
+
+(* ------------------------------------------------------------------ SaveGlobals *)
+(* the file is exactly one complete line per kept binding, in key order; the count is the number of lines *)
+Theorem C14_save_is_sorted_and_skips : forall maxlen extras env,
+  existsb (panics maxlen extras) (sort_keys env) = false ->
+  save_globals maxlen extras env =
+    Some (file_of (kept_lines maxlen extras (sort_keys env)), List.length (kept_lines maxlen extras (sort_keys env)))
+  /\ Permutation env (sort_keys env)
+  /\ StronglySorted key_le (sort_keys env).
+Proof.
+  intros maxlen extras env H. split; [|split].
+  - unfold save_globals. rewrite save_loop_spec by exact H. reflexivity.
+  - apply sort_keys_perm.
+  - apply sort_keys_sorted.
+Qed.
+
+(* the value-length limit skips whole bindings: what is written under a limit is written identically without it,
+   and a skipped binding is one whose value text is longer than the limit *)
+Theorem C14_limit_skips_never_truncates : forall maxlen extras k v,
+  (forall l, save_one maxlen extras k v = LLine l -> save_one 0 extras k v = LLine l) /\
+  (save_one maxlen extras k v = LSkipLong ->
+     exists val, save_one 0 extras k v = LLine (k ++ [61%N] ++ val) /\ (0 < maxlen < Z.of_nat (List.length val))%Z).
+Proof.
+  intros. split; [intros l; apply limit_writes_full_line|apply limit_skips_only_long].
+Qed.
+
+Theorem C14_limited_file_is_sublist_of_lines : forall maxlen extras bs,
+  sublist (kept_lines maxlen extras bs) (kept_lines 0 extras bs).
+Proof. exact kept_lines_limit_sublist. Qed.
+
+(* splitting the file at newlines gives back exactly the kept lines (each binding occupies exactly one line) *)
+Theorem C14_one_binding_per_line : forall lines, Forall no_nl lines -> split_nl [] (file_of lines) = lines.
+Proof. exact split_file_of. Qed.
+
+(* ------------------------------------------------------------------ functions (computed examples) *)
+(* the three repaired lambda forms, an unbraced lambda and a named function read back as the same function *)
+Theorem C14_function_fixed_cases : function_fixed_cases = true.
+Proof. exact function_fixed_cases_ok. Qed.
+
+(* bodies hit by the recorded formatter findings do not (refutation of the function half of the full claim) *)
+Theorem C14_refuted_function_bodies : function_finding_cases = true.
+Proof. exact function_finding_cases_ok. Qed.
+
+(* a small environment: key order, the constant PI (an extra identifier) skipped, TEN (not an extra) kept, the alias
+   h of the named function g written as h=func g.., and under limit 8 the two long values skipped as a whole while
+   the named function is written whatever its length *)
+Theorem C14_save_globals_example : save_globals_small.
+Proof. exact save_globals_small_ok. Qed.
+
+(* ------------------------------------------------------------------ the hypotheses are satisfiable *)
+Example C14_hypotheses_satisfiable :
+  exists k v, good_name k = true /\ in_domain v = true /\ no_finite_float v = true /\
+              v = VMap [(VInt (-7), VStr [10%N; 255%N]); (VBool true, VArr [VNil; VFloat (FInf true)])].
+Proof. exists [107%N; 49%N]. eexists. repeat split; vm_compute; reflexivity. Qed.
+
+Print Assumptions C14_refuted_integral_float.
+Print Assumptions C14_refuted_min_int64.
+Print Assumptions C14_refuted_witnesses.
+Print Assumptions C14_value_roundtrip_partial.
+Print Assumptions C14_value_roundtrip_partial_any_conv.
+Print Assumptions C14_inspect_injective_partial.
+Print Assumptions C14_roundtrip_examples.
+Print Assumptions C14_one_line.
+Print Assumptions C14_saved_line_has_no_newline.
+Print Assumptions C14_save_is_sorted_and_skips.
+Print Assumptions C14_limit_skips_never_truncates.
+Print Assumptions C14_limited_file_is_sublist_of_lines.
+Print Assumptions C14_one_binding_per_line.
+Print Assumptions C14_function_fixed_cases.
+Print Assumptions C14_refuted_function_bodies.
+Print Assumptions C14_save_globals_example.
